@@ -397,6 +397,9 @@ def run(prog, rep, tier):
         if (isinstance(it, ast.Call) and isinstance(it.func, ast.Name) and it.func.id == "range"):
             rep.violate("R1-order", adv.qualname, "generation loop does not run ngen times: range(%s)"
                         % ", ".join(dump(a) for a in it.args), where(adv, loop), "range(ngen)", dump(it))
+        elif isinstance(it, ast.Name) and [dump(n_.value) for n_ in ast.walk(adv.node) if isinstance(n_, ast.Assign) and len(n_.targets) == 1
+                                            and isinstance(n_.targets[0], ast.Name) and n_.targets[0].id == it.id] == ["range(ngen)"]:
+            pass        # the range is built first (e.g. inside a try that rewords the TypeError) and iterated afterwards
         else:
             rep.unrec("R1-order", adv.qualname, "generation loop header not modelled: %s" % dump(it))
     classify = classify_factory(ctx, adv)
@@ -682,6 +685,22 @@ def run(prog, rep, tier):
                         and isinstance(par.comparators[0], ast.Constant) and par.comparators[0].value is None:
                     rep.ok("R4-readonly", f.qualname + "#" + fld, "read only in a None test")
                     continue
+                if isinstance(par, (ast.Tuple, ast.List)):
+                    # listed only to be tested: `all(c is not None for c in (self._start_a, self._start_b, ...))` / any(... is None ...)
+                    gp = parents.get(par) if isinstance(parents, dict) else None
+                    comp = gp if isinstance(gp, ast.comprehension) else None
+                    if comp is None and isinstance(gp, ast.Assign) and len(gp.targets) == 1 and isinstance(gp.targets[0], ast.Name):
+                        # the tuple is named first and only iterated over afterwards
+                        loads = [x for x in ast.walk(f.node) if isinstance(x, ast.Name) and x.id == gp.targets[0].id and isinstance(x.ctx, ast.Load)]
+                        comps = [c_ for c_ in ast.walk(f.node) if isinstance(c_, ast.comprehension) and isinstance(c_.iter, ast.Name) and c_.iter.id == gp.targets[0].id]
+                        if len(loads) == 1 and len(comps) == 1:
+                            comp = comps[0]
+                    owner_ = next((x for x in ast.walk(f.node) if isinstance(x, (ast.GeneratorExp, ast.ListComp)) and any(g_ is comp for g_ in x.generators)), None) if comp is not None else None
+                    if owner_ is not None and isinstance(owner_.elt, ast.Compare) and len(owner_.elt.ops) == 1 and isinstance(owner_.elt.ops[0], (ast.Is, ast.IsNot)) \
+                            and isinstance(owner_.elt.comparators[0], ast.Constant) and owner_.elt.comparators[0].value is None \
+                            and isinstance(owner_.elt.left, ast.Name) and isinstance(comp.target, ast.Name) and owner_.elt.left.id == comp.target.id:
+                        rep.ok("R4-readonly", f.qualname + "#" + fld, "read only in a None test (over a tuple of the containers)")
+                        continue
                 if isinstance(par, ast.Call) and prog.dotted(f.module, par.func) == "copy.copy":
                     # a shallow copy shares the contained objects with the initial state
                     rep.violate("R4-readonly", f.qualname, "%s is handed out through a shallow copy" % fld, where(f, n),
